@@ -348,6 +348,13 @@ def nested_cases() -> Iterator[dict[str, Any]]:
                     node = ["inc", "n0"] if tag == "inc" else ["ren", "n0", keys]
                     _find_block(ts["t0"], host)[3].append(node)
                     yield _model_case("nested", ts, data=data)
+        # a block of the leaf pulls in the chain's own root parent as a partial
+        for depth in (2, 3):
+            for host in ("a", "b"):
+                ts = build_chain([[["a", "", 1, 0], ["b", "", 0, 0]]] + [[["a", "", 0, 0], ["b", "", 1, 0]]] * (depth - 1))
+                node = ["inc", f"t{depth - 1}"] if tag == "inc" else ["ren", f"t{depth - 1}", keys]
+                _find_block(ts["t0"], host)[3].append(node)
+                yield _model_case("self-include", ts, data=data)
 
 
 # ----------------------------------------------------------------------------- random family
@@ -464,6 +471,16 @@ def random_case(draw: Any, no_include_nest: bool, pre_text: bool = True) -> dict
                 node = ["inc", "n0"] if tag == "inc" else ["ren", "n0", sorted(data)]
                 host_body = scan(templates[tn])[1][bi][3]
                 host_body.insert(draw(st.integers(1, len(host_body))), node)
+    elif depth >= 2 and draw(st.integers(0, 5)) == 0:
+        # a block of the leaf includes/renders the chain's own root parent (with a caching loader that is
+        # the very Template object the chain is being rendered through)
+        hosts = scan(templates["t0"])[1]
+        if hosts and not (no_include_nest):
+            host_body = draw(st.sampled_from(hosts))[3]
+            root = f"t{depth - 1}"
+            node = ["inc", root] if draw(st.booleans()) else ["ren", root, sorted(data)]
+            host_body.insert(draw(st.integers(0, len(host_body))), node)
+            case["fam"] = "self-include"
     return case
 
 
